@@ -45,6 +45,13 @@ claim("C05",
       "cannot kill a process.",
       "DESIGN.md §4 C05")
 
+claim("C12",
+      "Proof of the forced-encryption policy on the accept and dial paths (a successful forced handshake selected RC4 "
+      "and returns the MSE stream; no plaintext write or retry when forced), of the cipher-selection checks, and of the "
+      "sync-window arithmetic for every pad length. Partial: DH/RC4 key agreement and byte transparency of the stream "
+      "are cryptographic two-party properties outside function contracts.",
+      "DESIGN.md §4 C12")
+
 na("C10", "liveness/progress over unbounded schedules of several goroutines: a function contract cannot state fairness or progress measures (DESIGN.md §4 C10)")
 na("C20", "data races and lock-ups quantify over schedules; the contracts are sequential and assume the single-owner discipline C20 asks to prove (DESIGN.md §4 C20)")
 for p in ["C01", "C02", "C04", "C05", "C06", "C07", "C08", "C09", "C11", "C12", "C13", "C14", "C15", "C17", "C18", "C19"]:
